@@ -28,8 +28,9 @@ func run(c perco.GCase, r *pbt.Rec) error {
 
 func TestCheck(t *testing.T) {
 	s := &pbt.Suite{ID: "C17", Level: "exploration",
-		Rule: "Generated histories: 1-4 keys, <=5 transactions with put/delete/lock-only mutations (values up to one SST block), start and commit timestamps from one strictly increasing counter (unique, reads use unused even timestamps or a transaction's own start ts), aborted transactions, duplicate/late requests, CheckTxnStatus/ResolveLock, flush / L0->ingest move / ingest merge / ingest drain / compaction picker anywhere; <=28 steps plus closing reads. Oracle: each Get(k,t) and Scan(start,limit,t) answered by kv.Apply equals the reference model: lock error iff a lock with start<=t is on the (first blocked) key, else the value of the newest committed put/delete with commit<=t skipping rollback and lock-only records; Scan must equal the per-key reads, hence Get. Non-trivial = the case contains a read that (a) has a rollback or lock-only record as newest record <=t above an older committed put, or (b) returns a value although a lock with start>t or a commit>t exists on the key (an older snapshot is served); distinct by case content.",
+		Rule: "Generated histories: 1-4 keys, <=5 transactions with put/delete/lock-only mutations (values up to one SST block), start and commit timestamps from one strictly increasing counter (unique, reads use unused even timestamps or a transaction's own start ts), aborted transactions, duplicate/late requests, CheckTxnStatus/ResolveLock, flush / L0->ingest move / ingest merge / ingest drain / compaction picker anywhere; <=28 steps plus closing reads. Oracle: each Get(k,t) and Scan(start,limit,t) answered by kv.Apply equals the reference model: lock error iff a lock with start<=t is on the (first blocked) key, else the value of the newest committed put/delete with commit<=t skipping rollback and lock-only records; Scan must equal the per-key reads, hence Get. Partial requests: a hotlimit step sets Options.WriteHotKeyLimit so that a Commit is refused between its two engine writes (commit record written, lock removal refused with ErrHotKeyWriteThrottle, response Retryable) and lifts it again; after a Retryable response the model re-reads lock and write records of the touched keys from the store and every later request (rollback / resolve / check-txn-status / re-applied commit on the leftover lock) is judged against that state. Non-trivial = the case contains a read that (a) has a rollback or lock-only record as newest record <=t above an older committed put, or (b) returns a value although a lock with start>t or a commit>t exists on the key (an older snapshot is served); distinct by case content.",
 		Assumptions: []string{
+			"a request answered with a Retryable key error took effect as a prefix of its engine writes; its response and partial effect are not judged (the model resynchronises from the store), all later requests are",
 			"requests are applied one at a time (the raft apply path is sequential); concurrency of apply is C20's subject",
 			"a Scan stops at the first key whose lock blocks it and keeps the pairs collected before it (what handleScan documents by construction); keys after the limit-th pair are not read",
 			"reads never use a commit timestamp as read timestamp (timestamps are unique)",
